@@ -150,6 +150,109 @@ fn oracle(c: &Case, acc: &mut Acc) -> CaseResult {
     Ok(())
 }
 
+#[derive(Clone, Debug, Serialize, Deserialize)]
+pub struct HistCase {
+    pub pattern: String,
+    pub suite_idx: usize,
+    pub backend: Backend,
+    /// number of rejected reads (bad tag / garbage / truncated / wrong nonce) in the history
+    pub n_fail: usize,
+    pub seed: u64,
+    pub threads: u8,
+}
+
+/// Purity across long histories: the result of a read depends on (keys, nonce, input) only,
+/// not on how many reads - including rejected ones - happened before.
+fn hist_oracle(c: &HistCase, acc: &mut Acc) -> CaseResult {
+    let spec = spec_of(&Case { pattern: c.pattern.clone(), suite_idx: c.suite_idx, backend: c.backend, items: vec![], script: vec![], seed: c.seed, threads: 1 });
+    let name = format!("{} [{:?}]", spec.name_string(), c.backend);
+    let oneway = spec.pattern().is_oneway();
+    let pair = drive_to(&spec, spec.n_msgs())?;
+    let ti = pair.i.into_stateless_transport_mode().map_err(|x| Fail::setup(e(&x)))?;
+    let tr = pair.r.into_stateless_transport_mode().map_err(|x| Fail::setup(e(&x)))?;
+    let genuine: Vec<(bool, u64, Vec<u8>, Vec<u8>)> = (0..6u64)
+        .map(|k| {
+            let r_to_i = k % 2 == 1 && !oneway;
+            let n = if k < 3 { k } else { mix(c.seed, k) % (u64::MAX - 1) };
+            let p = expand(c.seed, 10 + k, 5 + k as usize * 9);
+            let w = if r_to_i { &tr } else { &ti };
+            let m = sl_write(w, n, &p, p.len() + 16).unwrap_or_default();
+            (r_to_i, n, p, m)
+        })
+        .collect();
+    ensure!(genuine.iter().all(|g| !g.3.is_empty()), "{name}: set-up writes failed");
+    let check_all = |when: &str| -> CaseResult {
+        for (r_to_i, n, p, m) in &genuine {
+            let (w, r) = if *r_to_i { (&tr, &ti) } else { (&ti, &tr) };
+            let got = sl_read(r, *n, m, p.len()).map_err(|x| Fail::new(format!("{name}: {when}: a genuine message (nonce {n}) is no longer read back: {}", e(&x))))?;
+            ensure!(got == *p, "{name}: {when}: payload differs");
+            let again = sl_write(w, *n, p, p.len() + 16).map_err(|x| Fail::new(format!("{name}: {when}: write failed: {}", e(&x))))?;
+            ensure!(again == *m, "{name}: {when}: the same write now produces different bytes");
+        }
+        Ok(())
+    };
+    check_all("before any rejected read")?;
+    let worker = |t: usize, count: usize| -> CaseResult {
+        for k in 0..count {
+            let g = &genuine[(k + t) % genuine.len()];
+            let r = if g.0 { &ti } else { &tr };
+            let mut bad = g.3.clone();
+            let mut n = g.1;
+            match (k + t) % 4 {
+                0 => {
+                    let l = bad.len();
+                    bad[l - 1] ^= 1;
+                },
+                1 => bad = expand(c.seed, 5000 + k as u64, 16 + k % 40),
+                2 => {
+                    bad.truncate(bad.len() - 1);
+                },
+                _ => n ^= 1 << ((k % 63) as u64),
+            }
+            if n == u64::MAX {
+                n = 3;
+            }
+            let mut buf = vec![0u8; 200];
+            let res = r.read_message(n, &bad, &mut buf);
+            ensure!(res.is_err(), "{name}: altered delivery {k} accepted");
+        }
+        Ok(())
+    };
+    if c.threads <= 1 {
+        let mut done = 0;
+        while done < c.n_fail {
+            let step = 16.min(c.n_fail - done);
+            worker(done, step)?;
+            done += step;
+            check_all(&format!("after {done} rejected reads"))?;
+        }
+    } else {
+        let n = c.threads as usize;
+        let per = c.n_fail / n + 1;
+        let results: Vec<CaseResult> = std::thread::scope(|sc| {
+            let hs: Vec<_> = (0..n)
+                .map(|t| {
+                    let worker = &worker;
+                    let check_all = &check_all;
+                    sc.spawn(move || -> CaseResult {
+                        worker(t, per)?;
+                        check_all("after this thread's rejected reads (other threads still running)")
+                    })
+                })
+                .collect();
+            hs.into_iter().map(|h| h.join().unwrap_or_else(|_| Err(Fail::new("thread panicked")))).collect()
+        });
+        for r in results {
+            r?;
+        }
+        check_all("after all threads finished")?;
+    }
+    acc.label(format!("history_rejected_reads:{}", if c.n_fail >= 1000 { ">=1000" } else if c.n_fail >= 100 { ">=100" } else { "<100" }));
+    acc.label(format!("backend:{:?}", spec.backend_i));
+    acc.nontrivial(&(name, c.n_fail, c.threads));
+    Ok(())
+}
+
 const NONCES: [u64; 8] = [0, 1, 0xFFFF_FFFF, 0x1_0000_0000, 1 << 63, u64::MAX - 2, u64::MAX - 1, 0xDEAD_BEEF_0BAD_F00D];
 
 pub fn run(ctx: &Ctx) {
@@ -194,8 +297,23 @@ pub fn run(ctx: &Ctx) {
     }
     ctx.note(format!("thread stress: {} sessions x 8 threads x 40 rounds x 40 calls on shared &StatelessTransportState", tcases.len()));
     ctx.run_list("thread_stress", &tcases, false, oracle);
+    // long histories with many rejected reads (sequential and from 8 threads)
+    let mut hcases = Vec::new();
+    for (k, n_fail) in ctx.tier.pick(vec![1usize, 17, 40, 100, 300, 1000], vec![1usize, 17, 40, 100, 300, 1000, 5000, 70000]).into_iter().enumerate() {
+        for (j, pat) in ["NN", "N", "XX"].iter().enumerate() {
+            for backend in [Backend::Default, Backend::RingFirst] {
+                for threads in [1u8, 8] {
+                    hcases.push(HistCase { pattern: pat.to_string(), suite_idx: (k * 5 + j * 7) % 24, backend, n_fail, seed: mix(ctx.seed, (k * 10 + j) as u64), threads });
+                }
+            }
+        }
+    }
+    ctx.run_list("rejected_read_histories", &hcases, false, hist_oracle);
 }
 
 pub fn replay(ctx: &Ctx, sub: &str, case: &serde_json::Value, origin: &str) -> bool {
+    if sub == "rejected_read_histories" {
+        return ctx.replay_case::<HistCase, _>(sub, case, hist_oracle, origin);
+    }
     ctx.replay_case::<Case, _>(sub, case, oracle, origin)
 }
